@@ -11,7 +11,7 @@ from __future__ import annotations
 
 import random
 
-from .. import mslab, msmodel as ms
+from .. import mslab, msmodel as ms, textgen
 from ..core import Result, split
 
 LEVEL = "exploration"
@@ -96,6 +96,10 @@ def expected(srv, op, args, emulated):
 def run_session(rng, res: Result, idx, real_socket=False):
     conv = rng.random() < 0.6
     names = NAMES_CONV if conv else NAMES_ANY
+    if not conv and rng.random() < 0.5:
+        w = textgen.text(rng, 1, 8, exclude=["nul", "control", "line-break"])
+        w = "".join(ch for ch in w if ch not in "\r\n\x00") or "w"
+        names = names + [w]
     version = rng.random() < 0.6
     segmented = rng.random() < 0.5
     srv = ms.Server(rng=random.Random(rng.randrange(1 << 30)), users={b"user": b"pw"},
